@@ -182,7 +182,17 @@ def check_unwraps(F, cone, R2):
             if 'write_message' in s or 'RwLock' in s or 'Mutex' in s or '::lock' in s or '::read(' in s or '::write(' in s:
                 R2.ok(sample={'function': body.path, 'unwrap_of': s[:80], 'class': 'reply I/O or lock poisoning (allowed)'})
                 continue
-            if not PARSE_LIKE.search(s):
+            outer = recv
+            while isinstance(outer, tuple) and outer[0] in ('ref', 'cast'):
+                outer = outer[1]
+            outer_name = outer[1] if isinstance(outer, tuple) and outer[0] == 'call' else s
+            if isinstance(outer, tuple) and outer[0] == 'call' and re.search(r'::(err|ok|as_ref|as_mut|map|and_then|cloned|copied)$', outer[1]) and outer[2]:
+                inner0 = outer[2][0]
+                while isinstance(inner0, tuple) and inner0[0] in ('ref', 'cast'):
+                    inner0 = inner0[1]
+                if isinstance(inner0, tuple) and inner0[0] == 'call':
+                    outer_name = outer_name + ' ' + inner0[1]
+            if not PARSE_LIKE.search(outer_name):
                 R2.ok(sample={'function': body.path, 'unwrap_of': s[:80], 'class': 'not a parse-like operation on request text (outside this rule)'})
                 continue
             # guarded by is_some/is_ok/discriminant test of the same expression?
